@@ -201,4 +201,12 @@ def main():
 
 
 if __name__ == '__main__':
-    sys.exit(main())
+    try:
+        rc = main()
+    except SystemExit:
+        raise
+    except BaseException as e:          # never let a crash look like a verdict
+        print('INCONCLUSIVE property=%s reason=internal-error %s: %s' % (sys.argv[1] if len(sys.argv) > 1 else '?', type(e).__name__, str(e)[:300]))
+        traceback.print_exc()
+        rc = 2
+    sys.exit(rc)
